@@ -602,19 +602,25 @@ ZDICT_trainFromBuffer_fastCover(void* dictBuffer, size_t dictBufferCapacity,
     {
       /* Initialize array to keep track of frequency of dmer within activeSegment */
       U16* segmentFreqs = (U16 *)calloc(((U64)1 << parameters.f), sizeof(U16));
-      const size_t tail = FASTCOVER_buildDictionary(&ctx, ctx.freqs, dictBuffer,
-                                                dictBufferCapacity, coverParams, segmentFreqs);
-      const unsigned nbFinalizeSamples = (unsigned)(ctx.nbTrainSamples * ctx.accelParams.finalize / 100);
-      const size_t dictionarySize = ZDICT_finalizeDictionary(
-          dict, dictBufferCapacity, dict + tail, dictBufferCapacity - tail,
-          samplesBuffer, samplesSizes, nbFinalizeSamples, coverParams.zParams);
-      if (!ZSTD_isError(dictionarySize)) {
-          DISPLAYLEVEL(2, "Constructed dictionary of size %u\n",
-                      (unsigned)dictionarySize);
+      if (segmentFreqs == NULL) {
+          DISPLAYLEVEL(1, "Failed to allocate buffers: out of memory\n");
+          FASTCOVER_ctx_destroy(&ctx);
+          return ERROR(memory_allocation);
       }
-      FASTCOVER_ctx_destroy(&ctx);
-      free(segmentFreqs);
-      return dictionarySize;
+      { const size_t tail = FASTCOVER_buildDictionary(&ctx, ctx.freqs, dictBuffer,
+                                                dictBufferCapacity, coverParams, segmentFreqs);
+        const unsigned nbFinalizeSamples = (unsigned)(ctx.nbTrainSamples * ctx.accelParams.finalize / 100);
+        const size_t dictionarySize = ZDICT_finalizeDictionary(
+            dict, dictBufferCapacity, dict + tail, dictBufferCapacity - tail,
+            samplesBuffer, samplesSizes, nbFinalizeSamples, coverParams.zParams);
+        if (!ZSTD_isError(dictionarySize)) {
+            DISPLAYLEVEL(2, "Constructed dictionary of size %u\n",
+                        (unsigned)dictionarySize);
+        }
+        FASTCOVER_ctx_destroy(&ctx);
+        free(segmentFreqs);
+        return dictionarySize;
+      }
     }
 }
 
